@@ -371,6 +371,17 @@ def catalogue(tier="quick", mode="r1"):
                     [("s", "i", "foi"), ("i", "s", "press")],
                     F(1, 4), {"s": [0, 64], "i": [0, 16]}, pops=("p0", "p1"),
                     characs=[("alive", ["s", "i"], None)], interactions={"w": {("p0", "p0"): 1, ("p0", "p1"): F(1, 2), ("p1", "p0"): 2, ("p1", "p1"): 0}}, glob=False))
+    # 12c'b a program that targets a cross-population aggregation (documented precedence: function -> program -> limits): the program outcome
+    #       replaces the aggregated value in the targeted population while programs are active
+    S.append(struct("progagg", [("s", "normal"), ("i", "normal")],
+                    [("beta", "probability", 1, [F(1, 2), 2]),
+                     ("prev", None, None, [0], False, {"fn": ("div", ("comp", "i"), ("max", ("char", "alive"), ("num", 1)))}),
+                     ("avgprev", None, None, [0], False, {"fn": ("agg", "SRC_AVG", "prev", "w", "alive")}),
+                     ("foi", "probability", 1, [0], False, {"fn": ("mul", ("par", "beta"), ("par", "avgprev")), "lim": (0, 3)})],
+                    [("s", "i", "foi")],
+                    F(1, 4), {"s": [0, 64], "i": [0, 16]}, pops=("p0", "p1"),
+                    characs=[("alive", ["s", "i"], None)], interactions={"w": {("p0", "p0"): 1, ("p0", "p1"): F(1, 2), ("p1", "p0"): 2, ("p1", "p1"): 0}}, glob=False,
+                    programs={"P1": dict(pops=["p0"], comps=["s"], caps=[0, 8, 64])}, effects={("avgprev", "p0"): dict(base=F(1, 8), progs={"P1": F(3, 4)})}))
     # 12c'' programs: the environment chooses each program's capacity and whether programs are active; parameters with an effect row take
     #       the program outcome at the coverage implied by the same-step size of the targeted compartments (number, rate and probability
     #       conversions, one- and two-program rows, a limit that binds, a function of a program-targeted parameter)
